@@ -20,6 +20,7 @@ from hypothesis import strategies as st
 from .. import strategies as S
 from ..common import dc, permuted
 from ..engine import Clause, require
+from ..common import with_history  # noqa: E402
 
 ASSUMPTIONS = [
     "oracle = structural invariants of every outcome (node set, sizes, distinctness, counts, "
@@ -329,6 +330,7 @@ def _hoad_cases(draw, tier):
 # inputs for the functions that modify a given Hypergraph
 
 
+@with_history
 def _build(case):
     from hypergraphx import Hypergraph
     U = case["labels"]
